@@ -9,7 +9,11 @@ import logging
 from itertools import count
 from typing import Union
 
-from happysimulator.core.event import Event, _first_unused_global_sort_index
+from happysimulator.core.event import (
+    Event,
+    _first_unused_global_sort_index,
+    _raise_global_sort_index_floor,
+)
 from happysimulator.core.temporal import Instant
 from happysimulator.instrumentation.recorder import NullTraceRecorder, TraceRecorder
 
@@ -63,6 +67,21 @@ class EventHeap:
         if self._heap:
             floor = max(floor, max(event._sort_index for event in self._heap) + 1)
         self._event_counter = count(max(floor, next(self._event_counter)))
+
+    def continue_counter_after_global(self) -> None:
+        """Resuming a paused run: continue above indices handed out meanwhile.
+
+        Events built while the run was paused drew their sort index from the
+        global counter; events created once the run continues must sort after
+        them.
+        """
+        self._event_counter = count(
+            max(_first_unused_global_sort_index(), next(self._event_counter))
+        )
+
+    def publish_counter_to_global(self) -> None:
+        """Leaving the run loop: events built outside it sort after run-time events."""
+        _raise_global_sort_index_floor(next(self._event_counter))
 
     def set_current_time(self, time: Instant) -> None:
         """Update the current simulation time for accurate trace timestamps."""
